@@ -16,7 +16,7 @@ from engines import cassettes as C
 PROP = 'C05'
 SAMPLING = [('rate1', 1.0, None), ('rate0', 0.0, 0.5), ('frac_in', 0.5, 0.1), ('frac_out', 0.5, 0.9)]
 KINDS_IN = ['key_unbuildable', 'handler_raises', 'discard_in_body', 'interrupt_in_body', 'discard_before', 'raise_before',
-            'interrupt_before', 'force_before', 'fallback_raises']
+            'interrupt_before', 'force_before', 'fallback_raises', 'resolver_raises']
 KINDS_OUT = ['handler_raises', 'discard_in_body', 'interrupt_in_body', 'discard_before', 'raise_before', 'interrupt_before',
              'force_before']
 
@@ -97,7 +97,7 @@ def _run(tape, clock):
                             'recording %s finalised %s (calls %s)' % (rid, fin or 'never', calls))
         # ---- saved only if allowed by the model
         f = run.faults
-        discarded = any(f.get(k) for k in ('key_unbuildable', 'handler_raises', 'discard', 'discard_in_body', 'fallback_raises'))
+        discarded = any(f.get(k) for k in ('key_unbuildable', 'handler_raises', 'discard', 'discard_in_body', 'fallback_raises', 'resolver_raises'))
         if f.get('discard_in_extractor'):
             run.probe('discard_requested_during_finalisation')
         forced = (f.get('force_sample') or f.get('force_in_body')) and not ignore_forced
